@@ -192,7 +192,57 @@ def later_level_name_case(ctx, rng):
                         f'bonds, without it {ref.number_of_nodes()} / {ref.number_of_edges()}')
 
 
+def zero_ring_in_fragment_case(ctx, rng):
+    """a zero-order RING bond inside a coarse fragment definition (opened with '.', closed by a one- or two-digit marker,
+    also as the very last characters of the fragment text): at the next level it must not become a bond — the molecule is
+    the one of the same description without that ring bond"""
+    n = rng.randint(3, 5)
+    beads = ['B%d' % i for i in range(n)]
+    i = rng.randrange(0, n - 2)
+    j = rng.randrange(i + 2, n)
+    mark = rng.choice(['1', '7', '%10', '%12'])
+    tail = rng.choice(['', '', '[$q]']) if j == n - 1 else ''
+
+    def frag(with_ring):
+        t = ''
+        for k, b in enumerate(beads):
+            t += '[#%s]' % b
+            if with_ring and k == i:
+                t += '.' + mark
+            if with_ring and k == j:
+                t += mark
+        return t + tail
+    # every bead has a spare descriptor: a zero-order edge that turned into a real one would find partners
+    atoms = ['[$]C[$]'] + ['[$]%s([$])[$]' % rng.choice(['C', 'CC', 'N']) for _ in range(n - 2)] + ['[$]C[$]']
+    last = '{' + ','.join('#%s=%s' % (b, a) for b, a in zip(beads, atoms)) + '}'
+    outer = '{[#P]}' if not tail else '{[#P][#E]}'
+    mid = lambda r: '{#P=%s%s}' % (frag(r), ',#E=[$q][#B0]' if tail else '')
+    s_ring = outer + '.' + mid(True) + '.' + last
+    s_ref = outer + '.' + mid(False) + '.' + last
+    case = {'kind': 'zero-ring-in-fragment', 's': s_ring, 'all_atom': True, 'variant': 'zero-ring', 'reference': s_ref}
+    try:
+        with lib.quiet():
+            _, ref = impl.resolver_from_string(s_ref).resolve_all()
+    except Exception:    # noqa: BLE001
+        ctx.count('zero-ring-fragment', nontrivial=False)
+        return
+    steps = suites.run_resolve_case(ctx, 'zero-ring-fragment', case)
+    ctx.feature('zero-ring-in-fragment:' + ('end-of-text' if (j == n - 1 and not tail) else 'inside'))
+    if steps is None or steps[-1]['result'] != 'ok':
+        ctx.fail(case, 'description with a zero-order ring bond inside a coarse fragment is rejected'
+                       + ('' if steps is None else f' at level {steps[-1]["level"]}: {steps[-1]["result"]}'))
+        return
+    fine = steps[-1]['fine_graph']
+    if fine.number_of_nodes() != ref.number_of_nodes() or fine.number_of_edges() != ref.number_of_edges() or \
+            not nx.is_isomorphic(fine, ref, node_match=nm, edge_match=em):
+        ctx.fail(case, f'the zero-order ring bond {beads[i]}…{beads[j]} of the fragment changes the molecule: '
+                       f'{fine.number_of_nodes()} atoms / {fine.number_of_edges()} bonds, without it {ref.number_of_nodes()} / {ref.number_of_edges()}')
+
+
 def run(ctx):
+    rng3 = ctx.rng('zero-ring-fragment')
+    for i in range(ctx.budget(40, 800)):
+        zero_ring_in_fragment_case(ctx, rng3)
     rng = ctx.rng('resolve')
     rng2 = ctx.rng('hier-virtual')
     for i in range(ctx.budget(60, 1200)):
